@@ -6,6 +6,7 @@ import BoboVerif.Lemmas.LocalExact
 import BoboVerif.Lemmas.IdInv
 import BoboVerif.Lemmas.LocalSim
 import BoboVerif.Lemmas.GenDecider
+import BoboVerif.Lemmas.Rename
 /-!
 C03 — Replication is transparent and survivors take over (failover equivalence).
 
@@ -938,4 +939,328 @@ theorem decider_source_fragments_c03 {ε : Type} (rr : Rec ε) (l : Bobo.Run.Run
     Bobo.Gen.DeciderFrag.remoteOrder = remoteOrderModel ∧ Bobo.Gen.DeciderFrag.localOrder = localOrderModel ∧
     Bobo.Gen.DeciderFrag.processEventLists = "r_halt_com+p_halt_com,r_halt_incom,r_upd+p_upd" :=
   ⟨gen_ahead_eq rr l, gen_filters_eq c hc s comp halt upd, gen_remoteOrder_eq, gen_localOrder_eq, gen_processEventLists_eq⟩
+end Bobo.Decider
+
+/-! ### run identifiers are labels: a single engine that numbers its runs itself (Lemmas/Rename.lean)
+
+`single_engine_step` / `single_engine_shadows` compare the cluster with a reference engine that draws its identifiers
+from the source of the instance processing the event.  The theorems below remove that proviso: which identifiers an
+engine hands out does not matter — `update()` and `on_distributed_update` commute with every renaming that is injective
+on the identifiers involved (`localStep_rename`, `remoteStep_rename`), hence two single engines with different
+collision-free generators behave the same up to the renaming that maps the `k`-th identifier of the one to the `k`-th
+identifier of the other. -/
+namespace Bobo.Decider
+open Bobo.Run
+section rename
+variable {ε : Type}
+
+/-- **the identifiers of a single engine are irrelevant (uniform form)**: for collision-free generators `g`, `h` there
+is ONE renaming `ρ` with `ρ (g k) = h k` for all `k`, injective on everything `g` can hand out, such that for every
+configuration-independent stream the engine with generator `h` fails iff the engine with generator `g` fails, and
+otherwise ends in the renamed state (same counter) having sent the renamed notifications. -/
+theorem single_engine_ids_irrelevant_uniform (c : Cfg ε) (g h : Nat → String)
+    (hg : ∀ i j, g i = g j → i = j) (hh : ∀ i j, h i = h j → i = j) :
+    ∃ ρ : String → String, (∀ k, ρ (g k) = h k) ∧ InjOn ρ (fun x => ∃ k, g k = x) ∧
+      ∀ es : List ε, runLocal c h {} es =
+        (runLocal c g {} es).map (fun r => (renState ρ r.1, r.2.map (renNotif ρ))) := by
+  refine ⟨renOf g h, renOf_gen g h hg, renOf_injOn g h hg hh, fun es => ?_⟩
+  have := runLocal_rename c (renOf_injOn g h hg hh) g h (fun k => ⟨k, rfl⟩) (renOf_gen g h hg) es {}
+    (stateIn_empty _)
+  rw [renState_empty] at this
+  exact this
+
+/-- **the identifiers of a single engine are irrelevant**: two single engines with collision-free generators `g`
+and `h`, started empty and fed the same stream, either both fail, or end in states `s`, `s'` and send notifications
+`nts`, `nts'` that are equal up to a renaming `ρ` with `ρ (g k) = h k` for all `k` (same counter). -/
+theorem single_engine_ids_irrelevant (c : Cfg ε) (g h : Nat → String)
+    (hg : ∀ i j, g i = g j → i = j) (hh : ∀ i j, h i = h j → i = j) (es : List ε) :
+    (runLocal c h {} es = none ↔ runLocal c g {} es = none) ∧
+    ∀ s nts s' nts', runLocal c g {} es = some (s, nts) → runLocal c h {} es = some (s', nts') →
+      ∃ ρ : String → String, (∀ k, ρ (g k) = h k) ∧ s' = renState ρ s ∧ s'.nextId = s.nextId ∧
+        nts' = nts.map (renNotif ρ) := by
+  obtain ⟨ρ, h1, _, h3⟩ := single_engine_ids_irrelevant_uniform c g h hg hh
+  have h3 := h3 es
+  refine ⟨?_, ?_⟩
+  · rw [h3]; cases runLocal c g {} es <;> simp
+  · intro s nts s' nts' e1 e2
+    rw [e1, e2] at h3
+    simp only [Option.map_some, Option.some.injEq, Prod.mk.injEq] at h3
+    exact ⟨ρ, h1, h3.1, by rw [h3.1]; rfl, h3.2⟩
+
+/-! non-vacuity of `localStep_rename`: a stored run ("x" ↦ "y") that stays, a newly started run ("r0" ↦ "q0"), a
+renaming that is not the identity, different generators and different counters -/
+section example_rename
+def exρ (x : String) : String :=
+  if x = "x" then "y" else if x = "r0" then "q0" else if x = "r1" then "q1" else x
+def exG2 (n : Nat) : String := if n = 5 then "q0" else "q1"
+def exSset (x : String) : Prop := x = "x" ∨ x = "r0" ∨ x = "r1"
+
+theorem exρ_injOn : InjOn exρ exSset := by
+  rintro x y (rfl | rfl | rfl) (rfl | rfl | rfl) h <;> first | rfl | exact absurd h (by decide)
+
+theorem exS_in : TableIn exSset exS.table := by
+  intro phe hphe pe hpe r hr
+  simp only [exS, exT, List.mem_singleton] at hphe
+  subst hphe
+  simp only [List.mem_singleton] at hpe
+  subst hpe
+  simp only [List.mem_singleton] at hr
+  subst hr
+  exact .inl rfl
+
+theorem ex_drawn : ∀ k, exSset (exCfg.idOf (0 + k)) := by
+  intro k
+  rw [Nat.zero_add]
+  cases k with
+  | zero => exact .inr (.inl rfl)
+  | succ k => exact .inr (.inr rfl)
+
+theorem ex_maps : ∀ k, exρ (exCfg.idOf (0 + k)) = exG2 (5 + k) := by
+  intro k
+  rw [Nat.zero_add]
+  cases k with
+  | zero => decide
+  | succ k =>
+    have h1 : exCfg.idOf (k + 1) = "r1" := rfl
+    have h2 : exG2 (5 + (k + 1)) = "q1" := by
+      unfold exG2
+      rw [if_neg (by omega)]
+    rw [h1, h2]; decide
+
+/-- `localStep_rename` instantiated: the engine holding run "x" processes event 0 (which leaves "x" stored and
+starts run "r0" of p1); the engine holding the renamed run "y", drawing from another generator at another
+counter, does the renamed step — and the step is a real one (`some`), announces the new run, and the old run is
+still stored, under the old respectively the new name. -/
+example : ∃ s' nt ch,
+    localStep (withIds exCfg exCfg.idOf) { exS with nextId := 0 } 0 = some (s', nt, ch) ∧
+    localStep (withIds exCfg exG2) { renState exρ exS with nextId := 5 } 0 =
+      some ({ renState exρ s' with nextId := 5 + (s'.nextId - 0) }, renNotif exρ nt, ch) ∧
+    nt.updated.map (·.id) = ["r0"] ∧ (renNotif exρ nt).updated.map (·.id) = ["q0"] ∧
+    (s'.table.runAt "ph" "p1" "x").isSome = true ∧ ((renState exρ s').table.runAt "ph" "p1" "y").isSome = true ∧
+    s'.nextId = 1 := by
+  have hren := localStep_rename exCfg exρ_injOn exCfg.idOf exG2 0 5 ex_drawn ex_maps exS exS_in 0
+  have hsome : (localStep (withIds exCfg exCfg.idOf) { exS with nextId := 0 } 0).isSome = true := by decide
+  obtain ⟨⟨s', nt, ch⟩, hA⟩ := Option.isSome_iff_exists.mp hsome
+  rw [hA] at hren
+  have hfacts : ((localStep (withIds exCfg exCfg.idOf) { exS with nextId := 0 } 0).map (fun r =>
+      (r.2.1.updated.map (·.id), (renNotif exρ r.2.1).updated.map (·.id), (r.1.table.runAt "ph" "p1" "x").isSome,
+        ((renState exρ r.1).table.runAt "ph" "p1" "y").isSome, r.1.nextId))) = some (["r0"], ["q0"], true, true, 1) := by
+    decide
+  rw [hA] at hfacts
+  simp only [Option.map_some, Option.some.injEq, Prod.mk.injEq] at hfacts
+  obtain ⟨f1, f2, f3, f4, f5⟩ := hfacts
+  exact ⟨s', nt, ch, hA, hren, f1, f2, f3, f4, f5⟩
+end example_rename
+
+/-! ### the reference engine of `LockRef` is, up to a renaming, a plain single engine that numbers its runs itself -/
+
+/-- `LockRef` with the stream fed so far and the reference engine's notifications on record. -/
+inductive LockRefT (c : Cfg ε) {n : Nat} (f : Fin n → Nat → String) :
+    (Fin n → DState ε) → DState ε → List ε → List (Notif ε) → Prop
+  | init : LockRefT c f (fun _ => {}) {} [] []
+  | step {node node' : Fin n → DState ε} {s s' : DState ε} {es : List ε} {nts : List (Notif ε)} {i : Fin n} {e : ε}
+      {nt ntS : Notif ε} {ch chS : Bool}
+      (h : LockRefT c f node s es nts)
+      (hA : localStep (withIds c (f i)) (node i) e = some (node' i, nt, ch))
+      (hB : ∀ j, j ≠ i → ∃ nB, remoteStep (withIds c (f j)) (node j) nt.completed nt.halted nt.updated = some (node' j, nB))
+      (room : Room c (node i) nt)
+      (hS : refStep c (f i) (node i).nextId s e = some (s', ntS, chS)) : LockRefT c f node' s' (es ++ [e]) (nts ++ [ntS])
+
+theorem LockRefT.forget {c : Cfg ε} {n : Nat} {f : Fin n → Nat → String} {node : Fin n → DState ε} {s : DState ε}
+    {es : List ε} {nts : List (Notif ε)} (h : LockRefT c f node s es nts) : LockRef c f node s := by
+  induction h with
+  | init => exact .init
+  | step _ hA hB room hS ih => exact .step ih hA hB room hS
+
+/-- every reachable state of `LockRef` is reached along some stream. -/
+theorem LockRef.trace {c : Cfg ε} {n : Nat} {f : Fin n → Nat → String} {node : Fin n → DState ε} {s : DState ε}
+    (h : LockRef c f node s) : ∃ es nts, LockRefT c f node s es nts := by
+  induction h with
+  | init => exact ⟨[], [], .init⟩
+  | step _ hA hB room hS ih =>
+    obtain ⟨es, nts, ht⟩ := ih
+    exact ⟨_, _, .step ht hA hB room hS⟩
+
+/-- the identifiers issued so far together with everything instance `i` may still hand out. -/
+def StepSet {n : Nat} (f : Fin n → Nat → String) (node : Fin n → DState ε) (i : Fin n) (x : String) : Prop :=
+  IssuedN f node x ∨ ∃ j, f i ((node i).nextId + j) = x
+
+/-- the reference engine (state `s`, notifications `nts` after stream `es`) against the plain single engine with
+generator `h` (state `sh`): `ρ` is injective on the identifiers issued so far, the reference engine holds issued
+identifiers only, and the plain engine has reached the `ρ`-renamed state sending the `ρ`-renamed notifications. -/
+structure PlainSim (c : Cfg ε) {n : Nat} (f : Fin n → Nat → String) (h : Nat → String) (node : Fin n → DState ε)
+    (s : DState ε) (es : List ε) (nts : List (Notif ε)) (ρ : String → String) (sh : DState ε) : Prop where
+  inj : InjOn ρ (IssuedN f node)
+  sin : StateIn (IssuedN f node) s
+  nin : ∀ nt ∈ nts, NotifIn (IssuedN f node) nt
+  run : runLocal c h {} es = some (sh, nts.map (renNotif ρ))
+  st : sh = { renState ρ s with nextId := sh.nextId }
+  img : ∀ x, IssuedN f node x → ∃ k, k < sh.nextId ∧ ρ x = h k
+
+/-- **the reference engine is a plain single engine up to renaming**: along every run of the cluster with the
+reference engine alongside (stream `es`), the plain single engine `runLocal c h {} es` — ONE engine that draws its
+identifiers `h 0, h 1, …` itself — does not fail, and there is a renaming `ρ`, injective on the identifiers issued
+so far, that maps the reference engine's table and memories to the plain engine's and the reference engine's
+notifications to the plain engine's. -/
+theorem reference_is_plain_engine (c : Cfg ε) (hc : c.caching = true) (hns : NoSing c) (hcw : CfgWF c) {n : Nat}
+    (f : Fin n → Nat → String) (G : GensN f) (h : Nat → String) (hh : ∀ i j, h i = h j → i = j)
+    (node : Fin n → DState ε) (s : DState ε) (es : List ε) (nts : List (Notif ε)) (H : LockRefT c f node s es nts) :
+    ∃ ρ sh, PlainSim c f h node s es nts ρ sh := by
+  induction H with
+  | init =>
+    have hno : ∀ x, ¬ IssuedN f (fun _ : Fin n => ({} : DState ε)) x := by
+      rintro x ⟨i, k, hk, _⟩; exact absurd hk (Nat.not_lt_zero _)
+    exact ⟨id, {}, fun x y hx => (hno x hx).elim, stateIn_empty _, fun nt hnt => (nomatch hnt), rfl, rfl,
+      fun x hx => (hno x hx).elim⟩
+  | @step node node' s s' es nts i e nt ntS ch chS hprev hA hB room hS ih =>
+    obtain ⟨ρ, sh, I⟩ := ih
+    -- facts about the cluster
+    have hshadow := single_engine_shadows c hc hns hcw f G node s hprev.forget
+    have hinv := split_stream_mirror_n c hc hns hcw f G node hprev.forget.cluster
+    have hS' : localStep (withIds c (f i)) { s with nextId := (node i).nextId } e = some (s', ntS, chS) := hS
+    -- the reference engine draws exactly as many identifiers as the instance
+    have hnx : (node' i).nextId = s'.nextId := by
+      obtain ⟨s2, ntS2, chS2, hS2, _, hnx, _⟩ := local_sim (withIds c (f i)) hns hcw (node i)
+        { s with nextId := (node i).nextId } (node' i) e nt ch (hinv.wf i) hshadow.2 (hshadow.1 i) rfl hA
+      rw [hS'] at hS2
+      simp only [Option.some.injEq, Prod.mk.injEq] at hS2
+      rw [hS2.1]; exact hnx
+    have injI : ∀ k l, f i k = f i l → k = l := fun k l hkl => (G i i k l hkl).2
+    have hfresh : ∀ j, ¬ IssuedN f node (f i ((node i).nextId + j)) := by
+      rintro j ⟨i', k', hk', e'⟩
+      obtain ⟨e1, e2⟩ := G i i' _ _ e'
+      subst e1; omega
+    -- the extended renaming
+    obtain ⟨ρ', hnew, hold⟩ : ∃ ρ' : String → String, (∀ j, ρ' (f i ((node i).nextId + j)) = h (sh.nextId + j)) ∧
+        (∀ x, IssuedN f node x → ρ' x = ρ x) :=
+      ⟨extRen ρ (f i) (node i).nextId h sh.nextId, extRen_new ρ (f i) injI _ h _,
+        fun x hx => extRen_old ρ (f i) _ h _ x (by rintro ⟨j, rfl⟩; exact hfresh j hx)⟩
+    have hinjS : InjOn ρ' (StepSet f node i) := by
+      rintro x y (hx | ⟨j, rfl⟩) (hy | ⟨j', rfl⟩) hxy
+      · rw [hold x hx, hold y hy] at hxy; exact I.inj x y hx hy hxy
+      · rw [hold x hx, hnew] at hxy
+        obtain ⟨k, hk, ek⟩ := I.img x hx
+        rw [ek] at hxy
+        have := hh _ _ hxy; omega
+      · rw [hold y hy, hnew] at hxy
+        obtain ⟨k, hk, ek⟩ := I.img y hy
+        rw [ek] at hxy
+        have := hh _ _ hxy; omega
+      · rw [hnew, hnew] at hxy
+        have := hh _ _ hxy
+        have : j = j' := by omega
+        rw [this]
+    -- one step of the plain engine
+    have hstep := localStep_rename c hinjS (f i) h (node i).nextId sh.nextId (fun k => .inr ⟨k, rfl⟩) hnew s
+      (I.sin.1.mono (fun x hx => .inl hx)) e
+    have hsh : ({ renState ρ' s with nextId := sh.nextId } : DState ε) = sh := by
+      rw [renState_congr hold s I.sin]
+      exact I.st.symm
+    rw [hS', hsh] at hstep
+    simp only [Option.map_some] at hstep
+    -- issued identifiers
+    have hmonoI : (node i).nextId ≤ (node' i).nextId :=
+      (localStep_in (S := fun _ => True) (withIds c (f i)) (fun _ => trivial) (node i) (node' i) e nt ch
+        ⟨fun _ _ _ _ _ _ => trivial, fun _ _ => trivial, fun _ _ => trivial⟩ hA).2.2
+    have hother : ∀ j, j ≠ i → (node' j).nextId = (node j).nextId := by
+      intro j hj
+      obtain ⟨nB, hBj⟩ := hB j hj
+      exact (remote_frame ahead true (withIds c (f j)) (node j) (node' j) _ _ _ nB hBj).1
+    have hissMono : ∀ x, IssuedN f node x → IssuedN f node' x := by
+      rintro x ⟨i', k', hk', e'⟩
+      refine ⟨i', k', ?_, e'⟩
+      by_cases hi' : i' = i
+      · subst hi'; omega
+      · rw [hother i' hi']; exact hk'
+    have hissSplit : ∀ x, IssuedN f node' x → IssuedN f node x ∨
+        ∃ j, (node i).nextId + j < (node' i).nextId ∧ f i ((node i).nextId + j) = x := by
+      rintro x ⟨i', k', hk', e'⟩
+      by_cases hi' : i' = i
+      · subst hi'
+        by_cases hk : k' < (node i').nextId
+        · exact .inl ⟨i', k', hk, e'⟩
+        · refine .inr ⟨k' - (node i').nextId, by omega, ?_⟩
+          rw [e']; congr 1; omega
+      · rw [hother i' hi'] at hk'; exact .inl ⟨i', k', hk', e'⟩
+    have hsub : ∀ x, IssuedN f node' x → StepSet f node i x := by
+      intro x hx
+      rcases hissSplit x hx with h1 | ⟨j, _, h2⟩
+      · exact .inl h1
+      · exact .inr ⟨j, h2⟩
+    obtain ⟨hsin', hnin', hle'⟩ := localStep_in_drawn (S := IssuedN f node) (withIds c (f i))
+      { s with nextId := (node i).nextId } s' e ntS chS ⟨I.sin.1, I.sin.2.1, I.sin.2.2⟩ hS' (IssuedN f node') hissMono
+      (fun k _ hk2 => ⟨i, k, by rw [hnx]; exact hk2, rfl⟩)
+    refine ⟨ρ', { renState ρ' s' with nextId := sh.nextId + (s'.nextId - (node i).nextId) }, ?_, hsin', ?_, ?_, rfl, ?_⟩
+    · exact fun x y hx hy => hinjS x y (hsub x hx) (hsub y hy)
+    · intro nt0 hnt0
+      rcases List.mem_append.mp hnt0 with h1 | h1
+      · exact (I.nin nt0 h1).mono hissMono
+      · simp only [List.mem_singleton] at h1; subst h1; exact hnin'
+    · rw [runLocal_append, I.run]
+      simp only [hstep, List.map_append, List.map_cons, List.map_nil]
+      have : nts.map (renNotif ρ) = nts.map (renNotif ρ') := by
+        apply List.map_congr_left
+        intro nt0 hnt0
+        exact (renNotif_congr hold nt0 (I.nin nt0 hnt0)).symm
+      rw [this]
+    · intro x hx
+      simp only
+      rcases hissSplit x hx with h1 | ⟨j, hj, rfl⟩
+      · obtain ⟨k, hk, ek⟩ := I.img x h1
+        exact ⟨k, by omega, by rw [hold x h1]; exact ek⟩
+      · exact ⟨sh.nextId + j, by omega, hnew j⟩
+
+theorem runAt_renTable_some (ρ : String → String) {S : String → Prop} (t : Table ε) (ht : TableIn S t)
+    (ph pa id' : String) (r : LRun ε) (hr : (renTable ρ t).runAt ph pa id' = some r) : ∃ id, S id ∧ ρ id = id' := by
+  unfold Table.runAt at hr
+  rw [runsFrom_ren] at hr
+  have hm := List.mem_of_find?_eq_some hr
+  have hp := List.find?_some hr
+  obtain ⟨r0, h0, e0⟩ := List.mem_map.mp hm
+  subst e0
+  exact ⟨r0.run.id, runsFrom_in ht ph pa r0 h0, by simpa [renRun, renRun0] using hp⟩
+
+/-- **every instance of the cluster agrees key by key, up to a renaming of run identifiers, with a plain single
+engine that numbers its runs itself** (`single_engine_shadows` composed with `reference_is_plain_engine`): after any
+stream `es` split arbitrarily over the instances, the single engine `runLocal c h {} es` with ITS OWN generator
+`h` has not failed, and for a renaming `ρ` injective on the identifiers issued so far, every instance holds under
+key (ph, pa, id) exactly the run the single engine holds under (ph, pa, ρ id) (same index, same history), every
+identifier the single engine holds is the `ρ`-image of an issued one, and the single engine's notifications are the
+`ρ`-renamed notifications of the reference engine (which by `single_engine_step` agree key by key with what the
+instances announce). -/
+theorem cluster_agrees_with_plain_engine (c : Cfg ε) (hc : c.caching = true) (hns : NoSing c) (hcw : CfgWF c) {n : Nat}
+    (f : Fin n → Nat → String) (G : GensN f) (h : Nat → String) (hh : ∀ i j, h i = h j → i = j)
+    (node : Fin n → DState ε) (s : DState ε) (es : List ε) (nts : List (Notif ε)) (H : LockRefT c f node s es nts) :
+    ∃ ρ sh, InjOn ρ (IssuedN f node) ∧ runLocal c h {} es = some (sh, nts.map (renNotif ρ)) ∧
+      (∀ j ph pa id, IssuedN f node id →
+        sh.table.runAt ph pa (ρ id) = ((node j).table.runAt ph pa id).map (renRun ρ)) ∧
+      (∀ j ph pa id r, (node j).table.runAt ph pa id = some r → IssuedN f node id) ∧
+      (∀ ph pa id' r, sh.table.runAt ph pa id' = some r → ∃ id, IssuedN f node id ∧ ρ id = id') := by
+  obtain ⟨ρ, sh, I⟩ := reference_is_plain_engine c hc hns hcw f G h hh node s es nts H
+  have hshadow := single_engine_shadows c hc hns hcw f G node s H.forget
+  have hinv := split_stream_mirror_n c hc hns hcw f G node H.forget.cluster
+  have htab : sh.table = renTable ρ s.table := by rw [I.st]; rfl
+  refine ⟨ρ, sh, I.inj, I.run, ?_, ?_, ?_⟩
+  · intro j ph pa id hid
+    rw [htab, runAt_ren I.inj s.table I.sin.1 ph pa id hid, hshadow.1 j ph pa id]
+  · intro j ph pa id r hr
+    exact (hinv.ids j).tbl ph pa id r hr
+  · intro ph pa id' r hr
+    rw [htab] at hr
+    exact runAt_renTable_some ρ s.table I.sin.1 ph pa id' r hr
+
+/-- the same for `LockRef` (the stream is the one along which the state was reached). -/
+theorem cluster_agrees_with_plain_engine' (c : Cfg ε) (hc : c.caching = true) (hns : NoSing c) (hcw : CfgWF c) {n : Nat}
+    (f : Fin n → Nat → String) (G : GensN f) (h : Nat → String) (hh : ∀ i j, h i = h j → i = j)
+    (node : Fin n → DState ε) (s : DState ε) (H : LockRef c f node s) :
+    ∃ es ρ sh ntsh, InjOn ρ (IssuedN f node) ∧ runLocal c h {} es = some (sh, ntsh) ∧
+      (∀ j ph pa id, IssuedN f node id →
+        sh.table.runAt ph pa (ρ id) = ((node j).table.runAt ph pa id).map (renRun ρ)) ∧
+      (∀ j ph pa id r, (node j).table.runAt ph pa id = some r → IssuedN f node id) ∧
+      (∀ ph pa id' r, sh.table.runAt ph pa id' = some r → ∃ id, IssuedN f node id ∧ ρ id = id') := by
+  obtain ⟨es, nts, HT⟩ := H.trace
+  obtain ⟨ρ, sh, h1, h2, h3, h4, h5⟩ := cluster_agrees_with_plain_engine c hc hns hcw f G h hh node s es nts HT
+  exact ⟨es, ρ, sh, _, h1, h2, h3, h4, h5⟩
+
+end rename
 end Bobo.Decider
